@@ -227,7 +227,10 @@ func rulePC1(c *Ctx, r *Report) {
 
 func calleeLabel(cc *ssa.CallCommon) string {
 	if cc.IsInvoke() {
-		return namedOf(cc.Value.Type()).Obj().Name() + "." + cc.Method.Name()
+		if n := namedOf(cc.Value.Type()); n != nil {
+			return n.Obj().Name() + "." + cc.Method.Name()
+		}
+		return "iface." + cc.Method.Name()
 	}
 	if f := cc.StaticCallee(); f != nil {
 		return f.Name()
